@@ -2268,7 +2268,7 @@ MODELS = [
     (r"^core::slice::<impl \[.*\]>::windows$", m_slice_windows),
     (r"^core::slice::<impl \[.*\]>::split::<", m_slice_split),
     (r"^core::slice::<impl \[.*\]>::first(_mut)?$", m_slice_first),
-    (r"^core::slice::<impl \[.*\]>::last$", m_slice_last),
+    (r"^core::slice::<impl \[.*\]>::last(_mut)?$", m_slice_last),
     (r"^core::slice::<impl \[.*\]>::get(_mut)?::<usize>$", m_slice_get),
     (r"^core::slice::<impl \[.*\]>::swap$", m_slice_swap),
     (r"^core::slice::<impl \[.*\]>::contains$", m_slice_contains),
